@@ -322,6 +322,8 @@ def voc_cfast():
     V['convert_8888_to_0565'] = V['convert_0565_to_0888'] = V['convert_8888_to_8888'] = lambda ex, c, a: ex.val(a[0])
     V['convert_0565_to_8888'] = V['convert_x888_to_8888'] = lambda ex, c, a: ex.opaque(ex.val(a[0]))
     V['fetch_24'] = lambda ex, c, a: ex.load_ptr(ex.val(a[0]))
+    # a convex combination of four source pixels is a source pixel (which one, and with which weights, is C08's concern)
+    V['bilinear_interpolation'] = lambda ex, c, a: _all_equal([ex.val(o) for o in a[:4]])
     V['store_24'] = lambda ex, c, a: ex.store_ptr(ex.val(a[0]), ex.val(a[1]))
     return V, A, PR
 
@@ -1555,7 +1557,7 @@ def r10s_scaled_scanlines(ck, P):
         for idx, e in enumerate(t):
             fn = tables.fname(e['func'])
             F = u.functions.get(fn) if fn else None
-            if F is None or e['op'] not in inv or inv[e['op']] not in algebra.ORACLE or 'scaled_nearest' not in fn:
+            if F is None or e['op'] not in inv or inv[e['op']] not in algebra.ORACLE or not ('scaled_nearest' in fn or 'scaled_bilinear' in fn):
                 continue
             opname = inv[e['op']]
             if e['src_format'] in (any_,) or e['dest_format'] == any_:
@@ -1586,7 +1588,7 @@ def r10s_scaled_scanlines(ck, P):
                     Es = sympy.expand(Es.subs(fmt_sub, simultaneous=True))
                 argvals = []
                 for pn, pt in sf.params:
-                    role = {'pd': 'd', 'dst': 'd', 'ps': 's', 'src': 's', 'pm': 'm', 'mask': 'm'}.get(pn or '')
+                    role = {'pd': 'd', 'dst': 'd', 'ps': 's', 'src': 's', 'src_top': 's', 'src_bottom': 's', 'pm': 'm', 'mask': 'm'}.get(pn or '')
                     argvals.append(Ptr(role) if (role and pt.endswith('*')) else None)
                 if not any(isinstance(a, Ptr) and a.role == 'd' for a in argvals) or not any(isinstance(a, Ptr) and a.role == 's' for a in argvals):
                     done[key] = 'skip'; skipped[sf.name] = 'parameters dst/src not recognised'; continue
